@@ -12,7 +12,12 @@ def _proj(x, scale):
     return int(r), abs(v - r) <= 1e-9
 
 
+_ODD = [None, "", 0, (), 1.5, frozenset(), b"", ("t",), -1, "x", 7, (0, 0), 2.5, "None", frozenset([1]), 99]
+
+
 def _label(kind, i):
+    if kind == "odd":        # any hashable labels, not mutually orderable: None, falsy values, bytes, frozensets
+        return _ODD[i] if i < len(_ODD) else ("odd", i)
     return {"str": "n%d" % i, "tuple": (i, "k"), "float": i + 0.5}.get(kind, i)
 
 
@@ -76,7 +81,7 @@ def run_mst(case):
 
 def gen(rng, nmax=9):
     n = rng.randint(1, nmax)
-    m = rng.randint(0, min(18, n * 3))
+    m = rng.randint(0, min(18, n * 3)) if n <= 9 else rng.randint(n, 2 * n + 6)      # larger graphs: union-find trees of rank >= 2
     neg = rng.random() < 0.3
     few = rng.random() < 0.5     # few distinct weights -> many ties
     edges = []
@@ -92,5 +97,5 @@ def gen(rng, nmax=9):
         for a, b in zip(perm, perm[1:]):
             edges.append([a, b, rng.randint(0, 9)])
     rng.shuffle(edges)
-    return {"n": n, "edges": edges, "wscale": rng.choice([1, 1, 4]), "labels": rng.choice(["int", "str", "tuple", "float"]),
+    return {"n": n, "edges": edges, "wscale": rng.choice([1, 1, 4]), "labels": rng.choice(["int", "str", "tuple", "float", "odd"]),
             "starts": [None, rng.randrange(n), rng.randrange(n)]}
